@@ -251,6 +251,7 @@ func factsC13(r *Repo) []Fact {
 			out = append(out, boolFact("executorRecoverHandlerClean", clean && queued, where))
 		}
 	}
+	out = append(out, factsC13More(r)...) // c13_more.go: loopReportsCtxErr, convForwarderRecovers, childForwarderRecovers
 	return out
 }
 
